@@ -119,6 +119,7 @@ fn main() {
                 journal: PathBuf::from(g("--journal")),
                 scratch: PathBuf::from(g("--scratch")),
                 replay_dir: PathBuf::from(g("--replay-dir")),
+                skip: arg_after(&args, "--skip").unwrap_or_default().split(',').filter_map(|x| x.parse().ok()).collect(),
             };
             worker(prop, &a);
         }
